@@ -285,6 +285,17 @@ AnyUncond(d) ==
       [] d.c = "union" -> AnyUncondList(d.es, 1)
       [] OTHER -> FALSE
 
+\* The same question on the node vector itself: is there a record that contains itself through record-typed fields only?
+\* (Looking at a canonical description's ancestors is NOT complete: a record first written inside a union and later referred to
+\* by name from a plain field - N1 {f1: [N1, N2 {a: N1}], f2: N2} - closes the cycle N1 -> N2 -> N1 without N2 being an
+\* ancestor at the place of the reference.  Found by the 3-node enumeration of the thorough tier.)
+RecEdges(G, i) == IF i \in 1..Len(G) /\ G[i].k = "record"
+                  THEN {G[i].fields[j].t : j \in 1..Len(G[i].fields)} \cap {x \in 1..Len(G) : G[x].k = "record"}
+                  ELSE {}
+RECURSIVE RecReach(_, _, _)
+RecReach(G, S, fuel) == IF fuel = 0 THEN S ELSE LET T == S \cup UNION {RecEdges(G, i) : i \in S} IN IF T = S THEN S ELSE RecReach(G, T, fuel - 1)
+UncondCycle(G) == \E k \in 1..Len(G) : G[k].k = "record" /\ k \in RecReach(G, RecEdges(G, k), Len(G))
+
 (***************************************************************************)
 (* Parsing Canonical Form of a canonical description, as text (byte codes).*)
 (* [STRIP] only name/type/fields/symbols/items/values/size, [ORDER] in     *)
